@@ -30,7 +30,8 @@ def run(check):
     check.run_rule('C07.R4', lambda c: rule_probe_discipline(c, 'C07.R4'))
     from ..rules_defuse import rule_definite_assignment
     check.run_rule('C07.R11', lambda c: rule_definite_assignment(
-        c, 'C07.R11', ['_specifiers:forged_signature', '_signatures:signature', 'sphinxext:process_signature'], 'leaves retrieval / the Sphinx hook'))
+        c, 'C07.R11', ['_specifiers:forged_signature', '_signatures:signature', 'sphinxext:process_signature', '*_autoforwards', '*_util', '*_specifiers'],
+        'leaves retrieval / the Sphinx hook'))
 
     def r10(c):
         # the other implicit exception visible in the code: subscripting a provenance map with a key it need not have ('+depths' of a
